@@ -501,9 +501,14 @@ def run(ctx: Ctx) -> None:
                       'shape branch and at every producer', floor=19)
     ctx.trust('numpy concatenate/array/transpose/reshape semantics (performed on symbolic object arrays)',
               'bs_prod(L, e) has shape (k,) for a 1-D error and (k, m) for a stack (decided in C03)')
-    _truth_table_is_success(ctx)
-    _inline_success_sites(ctx)
-    _r042(ctx)
-    _r043(ctx)
+    with ctx.part():
+        _truth_table_is_success(ctx)
+    with ctx.part():
+        _inline_success_sites(ctx)
+    with ctx.part():
+        _r042(ctx)
+    with ctx.part():
+        _r043(ctx)
     from .c06 import code_state_rule
-    code_state_rule(ctx, 'R04.4')
+    with ctx.part():
+        code_state_rule(ctx, 'R04.4')
